@@ -115,7 +115,11 @@ def fresh_id(alpha, axis, k, taken):
 MD_CATS = [('barcode', 'text'), ('depth', 'int'), ('ph', 'float'),
            ('taxonomy', 'list'), ('flag', 'bool'), ('env/site', 'text'),
            ('collapsed_ids', 'list'), ('KEGG_Pathways', 'list'),
-           ('note', 'text'), ('Taxonomy', 'list')]
+           ('note', 'text'), ('Taxonomy', 'list'),
+           # JSON-only kinds (C02: nested lists, null, numpy scalars)
+           ('np_count', 'npint'), ('np_frac', 'npfloat'),
+           ('nested', 'nested'), ('maybe', 'null')]
+N_BASIC_CATS = 10
 _TEXTS = ['AATT', 'gut', 'soil', 'x y', 'a;b', 'k__Bacteria', 'p__Firmicutes',
           'c__Bacilli', 'o__Lacto', 'café', 'a/b', 'q', 'zz top', 'n-a',
           'B|C', 'water', 'skin', 'β', 'l33t', 'Z']
@@ -137,6 +141,18 @@ def md_value(kind, salt, idtext, cat, ctrl=False):
         return (h % 4096) / 64.0 - 8.0
     if kind == 'bool':
         return bool(h & 1)
+    if kind == 'npint':
+        import numpy as np
+        return np.int64(2 ** 53 + 1 + int(h % 1000) * 2) if h % 2 else \
+            np.int32(h % 100)
+    if kind == 'npfloat':
+        import numpy as np
+        return np.float64((h % 4096) / 7.0)
+    if kind == 'nested':
+        return [[int(h % 5), _TEXTS[h % len(_TEXTS)]], [(h % 9) / 2.0, None],
+                []]
+    if kind == 'null':
+        return None if h % 2 else _TEXTS[h % len(_TEXTS)]
     if kind == 'list':
         n = 1 + h % 3
         return [_TEXTS[(h >> (4 * i)) % len(_TEXTS)] for i in range(n)]
